@@ -770,12 +770,16 @@ class C08(Property):
         fn = make_fn(prog, hits)
         obs = {}
         try:
-            with time_limit(10):
+            # a mutated implementation may loop (and allocate) forever on cyclic input: keep the limit short,
+            # and shorter still once timeouts have been seen (normal cases take well under a millisecond)
+            with time_limit(2 if self.stats.get('timeouts', 0) < 2 else 0.3):
                 if case['mode'] == 'M':
                     if case.get('default'):
                         res = remap(root)
+                    elif case['reraise']:
+                        res = remap(root, visit=fn)            # reraise_visit defaults to True
                     else:
-                        res = remap(root, visit=fn, reraise_visit=bool(case['reraise']))
+                        res = remap(root, visit=fn, reraise_visit=False)
                     obs['res'] = labelled(res)
                     obs['plain'] = plain(res) if not has_cycle(res) else None
                     out_containers = containers_of(res)
@@ -806,6 +810,7 @@ class C08(Property):
                     obs['entries'] = entries
         except CaseTimeout:
             obs = {'exc': 'CaseTimeout'}
+            self.stats['timeouts'] = self.stats.get('timeouts', 0) + 1
         except Exception as e:
             obs = {'exc': exc_name(e)}
         obs['mutated'] = 0 if (labelled(root) == before and
@@ -836,11 +841,12 @@ class C08(Property):
             return 'skip'
         if 'exc' in obs:
             h = '!' + obs['exc']
-            return 'H=%s T=%s R=%s' % (h, h if tree else '-', h if tree else '-')
+            m = ' M=' + h if case['mode'] == 'M' else ''
+            return 'H=%s%s T=%s R=%s' % (h, m, h if tree else '-', h if tree else '-')
         if case['mode'] == 'M':
             h = obs['res']
             t = obs['plain'] if tree else '-'
-            return 'H=%s T=%s R=%s' % (h, t, t)
+            return 'H=%s M=%s T=%s R=%s' % (h, h, t, t)
         ents = ';'.join('%s>%s:%s' % (p, s, st) for p, s, st, _ in obs['entries']) or '-'
         return 'H=%s T=%s R=%s' % (ents, ents if tree else '-', ents if tree else '-')
 
